@@ -2,6 +2,12 @@ import QipVerif.Gen.DecompRulesAll
 import QipVerif.Lemmas.DecompResolve
 import QipVerif.Lemmas.GateC
 import QipVerif.Lemmas.DecompDenWitness
+import QipVerif.Lemmas.DecompCond
+import QipVerif.Lemmas.DecompTotal
+import QipVerif.Gen.DecompLabels
+import QipVerif.Lemmas.DecompReal
+import QipVerif.Lemmas.DecompLabelsTrue
+import QipVerif.Lemmas.DecompBasisPerm
 /-!
 # C03 — basis decomposition preserves the unitary exactly and stays in the basis
 
@@ -135,6 +141,203 @@ theorem resolve_refuses (keep : Bool) (b : BasisSpec) (gs : List Gate) (g : Gate
 example : ∃ e, resolve tables true (.str .CNOT) [⟨.RX, [0], [], {}⟩, ⟨.SQRTISWAP, [0, 1], [], {}⟩] = .error e :=
   ⟨.cannotResolve, by decide⟩
 
+/-! ## Refusal, as an equivalence
+
+`lenOK g`: the gate has the number of controls and targets of its name (what the gate classes build; a
+user's gate has any shape).  `expressible b2 inB n`: after the Pauli substitution the dispatch has a way
+to handle the name `n` — it is in the two-qubit basis, or it is SWAP with ISWAP in the basis, or it has a
+rule that does not raise, or it has no rule and is named in the basis (`Lemmas/DecompTotal.lean`). -/
+
+/-- **Refusal, both directions.**  After a successful basis validation, for every circuit of gates of
+the right shape: `resolve_gates` raises iff some gate is not expressible — and then what it raises is
+`cannotResolve` (NotImplementedError), never an index error. -/
+theorem resolve_refuses_iff (keep : Bool) (b : BasisSpec) (gs : List Gate) (b1 b2 : List GName)
+    (inB : GName → Bool) (hs : splitBasis b = .ok (b1, b2, inB)) (hg : ∀ g ∈ gs, lenOK g = true) :
+    ((∃ e, resolve tables keep b gs = .error e) ↔ ∃ g ∈ gs, expressible b2 inB g.name = false) ∧
+    (∀ e, resolve tables keep b gs = .error e → e = .cannotResolve) := by
+  rcases resolve_cases keep b gs b1 b2 inB hs hg with ⟨hall, out, ho⟩ | ⟨hex, he⟩
+  · refine ⟨⟨?_, ?_⟩, ?_⟩
+    · rintro ⟨e, h⟩; rw [ho] at h; cases h
+    · rintro ⟨g, hg', hf⟩; rw [hall g hg'] at hf; cases hf
+    · intro e h; rw [ho] at h; cases h
+  · refine ⟨⟨fun _ => hex, fun _ => ⟨_, he⟩⟩, ?_⟩
+    intro e h; rw [he] at h; cases h; rfl
+
+example : (∀ g ∈ [(⟨.RX, [0], [], {}⟩ : Gate), ⟨.SQRTISWAP, [0, 1], [], {}⟩], lenOK g = true) ∧
+    expressible [.CNOT] (fun _ => false) .SQRTISWAP = false ∧ expressible [.CNOT] (fun _ => false) .RX = true := by
+  decide
+
+/-- every gate the library declares resolvable, except the two square-root swaps, is expressible in
+every basis -/
+theorem expressible_library (b2 : List GName) (inB : GName → Bool) (n : GName)
+    (hn : resolvable.contains n = true) (h1 : n ≠ .SQRTSWAP) (h2 : n ≠ .SQRTISWAP) :
+    expressible b2 inB n = true := by
+  simp only [resolvable, List.contains_iff_mem, List.mem_cons, List.not_mem_nil, or_false] at hn
+  rcases hn with h | h | h | h | h | h | h | h | h | h | h | h | h | h | h | h | h | h | h <;>
+    first
+      | exact absurd h h1
+      | exact absurd h h2
+      | (subst h; simp [expressible, handles, afterPauli, gateRule])
+
+/-- SQRTSWAP / SQRTISWAP are expressible exactly in a basis that contains them -/
+theorem expressible_sqrt (b2 : List GName) (inB : GName → Bool) (n : GName) (h : n = .SQRTSWAP ∨ n = .SQRTISWAP) :
+    expressible b2 inB n = b2.contains n := by
+  rcases h with rfl | rfl <;> simp [expressible, handles, afterPauli, gateRule]
+
+/-- a gate without a rule (S, T, CZ, CRX, …, a user's gate) is expressible exactly if it is named in the basis -/
+theorem expressible_norule (b2 : List GName) (inB : GName → Bool) (n : GName)
+    (hp : afterPauli n = n) (hs : n ≠ .SWAP) (h : gateRule n = .missing) :
+    expressible b2 inB n = (b2.contains n || inB n) := by
+  have hs' : (n == GName.SWAP) = false := by simpa using hs
+  simp only [expressible, handles, hp, h, hs', Bool.false_and, Bool.or_false]
+
+/-- **The substring test of the unrepaired code** (`fixes/C03-3`): with the basis given as the string
+`"CSIGN"` the gate S is passed through, although S is not in the basis. -/
+theorem substring_passthrough_counterexample :
+    resolve tables true (.str .CSIGN) [⟨.S, [0], [], {}⟩] = .ok [⟨.S, [0], [], {}⟩] ∧
+    (allowed (.str .CSIGN)).contains .S = false ∧ validBasis (.str .CSIGN) = true := by
+  decide
+
+/-- With `fixes/C03-3` (a string basis is one name: `normBasis true`) a gate without a rule is refused in
+every string basis. -/
+theorem string_basis_refuses_norule (keep : Bool) (y n : GName) (hy : basis2qValid.contains y = true)
+    (hp : afterPauli n = n) (hs : n ≠ .SWAP) (hr : gateRule n = .missing) (hny : n ≠ y)
+    (gs : List Gate) (hg : ∀ g ∈ gs, lenOK g = true) (g : Gate) (hmem : g ∈ gs) (hn : g.name = n) :
+    resolve tables keep (normBasis true (.str y)) gs = .error .cannotResolve := by
+  rw [normBasis_valid y hy]
+  have hsplit : ∃ b1, splitBasis (.list [y]) = .ok (b1, [y], fun m => [y].contains m) := by
+    simp only [basis2qValid, List.contains_iff_mem, List.mem_cons, List.not_mem_nil, or_false] at hy
+    rcases hy with rfl | rfl | rfl | rfl | rfl <;> exact ⟨_, rfl⟩
+  obtain ⟨b1, hsp⟩ := hsplit
+  have hne : expressible [y] (fun m => [y].contains m) g.name = false := by
+    rw [hn, expressible_norule _ _ n hp hs hr]
+    simp [hny]
+  rcases resolve_cases keep (.list [y]) gs b1 [y] _ hsp hg with ⟨hall, _⟩ | ⟨_, he⟩
+  · rw [hall g hmem] at hne; cases hne
+  · exact he
+
+example : resolve tables true (normBasis true (.str .CSIGN)) [⟨.S, [0], [], {}⟩] = .error .cannotResolve := by decide
+
+/-! ## Every field of the emitted gate objects (`Model/DecomposeF.lean`)
+
+`resolveF tables labels v b fs` describes the gate OBJECTS `resolve_gates` returns: name, qubits, angle,
+`arg_label`, classical condition, and whether the object is an input gate passed through or a new `Gate`.
+`v` is the variant of the source: `keepCond` = `fixes/C03-2`, `exactStr` = `fixes/C03-3`. -/
+
+/-- **The field model refines the model**: forgetting the extra fields of what `resolveF` returns gives
+what `resolve` returns (for the basis spelled as the variant reads it), errors included.  Every theorem
+about `resolve` therefore speaks about the emitted gate objects. -/
+theorem resolveF_refines (v : FVariant) (b : BasisSpec) (fs : List FGate) :
+    eraseE (resolveF tables labels v b fs) = resolve tables v.keepMarkers (normBasis v.exactStr b) (erase fs) :=
+  resolveF_erase tables labels v b fs
+
+/-- **The classical condition is kept** (`fixes/C03-2`): for every assignment `σ` of the classical bits, the
+gates of the resolved circuit that are executed are exactly the resolution of the gates of the input that
+are executed. -/
+theorem resolve_keeps_condition (v : FVariant) (hk : v.keepCond = true) (b : BasisSpec) (σ : Nat → Bool)
+    (fs out : List FGate) (h : resolveF tables labels v b fs = .ok out) :
+    resolveF tables labels v b (executed σ fs) = .ok (executed σ out) :=
+  resolveF_executed tables labels v hk b σ fs out h
+
+/-- **C03 for circuits with classically controlled gates.**  For every register, basis specification,
+valuation of the symbolic angles and every assignment of the classical bits: the operator the resolved
+circuit applies is the operator the original applies, global phase included. -/
+theorem resolve_den_cond (N : ℕ) (ρ : ℕ → ℝ) (v : FVariant) (hm : v.keepMarkers = true) (hk : v.keepCond = true)
+    (b : BasisSpec) (fs out : List FGate) (hok : ∀ f ∈ fs, inputOK f.g = true)
+    (h : resolveF tables labels v b fs = .ok out) (σ : Nat → Bool)
+    (U : Matrix (St N) (St N) ℂ) (hU : denG N ρ (erase (executed σ fs)) = some U) :
+    denG N ρ (erase (executed σ out)) = some U := by
+  have h1 := resolveF_executed tables labels v hk b σ fs out h
+  have h2 := resolveF_erase tables labels v b (executed σ fs)
+  rw [h1, hm] at h2
+  simp only [eraseE] at h2
+  refine resolve_den_core N ρ _ _ _ ?_ h2.symm U hU
+  intro g hg
+  simp only [erase, List.mem_map] at hg
+  obtain ⟨f, hf, rfl⟩ := hg
+  exact hok f (List.mem_of_mem_filter hf)
+
+/-- non-vacuity: a classically controlled Pauli, SWAP and rotation, in a basis where all stages run; under the
+bits `c0 = 1, c1 = 0` the X and the RX are executed, the SWAP is not -/
+example :
+    let fs : List FGate := [⟨⟨.X, [0], [], {}⟩, .none, some ⟨[0], 1⟩, some 0⟩,
+      ⟨⟨.SWAP, [0, 1], [], {}⟩, .user 1, some ⟨[1, 0], 2⟩, some 1⟩, ⟨⟨.RX, [1], [], .pi8 2⟩, .frac 1 4, some ⟨[1], 0⟩, some 2⟩]
+    let σ : Nat → Bool := fun j => j == 0
+    (∀ f ∈ fs, inputOK f.g = true) ∧
+    (resolveF tables labels {} (.list [.CSIGN, .RY, .RZ]) fs).toOption.isSome = true ∧
+    (executed σ fs).length = 2 := by
+  decide
+
+/-- **The unrepaired code drops the condition** (`keepCond = false`): `[X 0 if c0]` resolved in basis "CNOT"
+is the unconditional `[GLOBALPHASE(π/2), RX(π)]`; with `c0 = 0` the original executes nothing, the resolved
+circuit executes both gates, and their operator is not the identity. -/
+theorem condition_dropped_counterexample :
+    let fs : List FGate := [⟨⟨.X, [0], [], {}⟩, .none, some ⟨[0], 1⟩, some 0⟩]
+    let out : List FGate := [⟨⟨.GLOBALPHASE, [], [], .pi8 4⟩, .none, none, none⟩, ⟨⟨.RX, [0], [], .pi8 8⟩, .none, none, none⟩]
+    let σ : Nat → Bool := fun _ => false
+    resolveF tables labels ⟨true, false, true⟩ (.str .CNOT) fs = .ok out ∧
+    executed σ fs = [] ∧ executed σ out = out ∧ sameDenE 1 (erase out) [] = false := by
+  refine ⟨by decide, by decide, by decide, by decide +kernel⟩
+
+/-- **Measurements.**  `resolve_gates` refuses a circuit iff… it contains a measurement: this check comes before
+the basis validation, and nothing else makes it raise this error.  (So no segment-wise statement is needed:
+a circuit with a measurement is never resolved.) -/
+theorem resolve_refuses_measurement (v : FVariant) (b : BasisSpec) (items : List CircItem) :
+    resolveC tables labels v b items = .error .measurement ↔ items.any CircItem.isMeas = true := by
+  unfold resolveC
+  constructor
+  · intro h
+    by_cases hm : items.any CircItem.isMeas = true
+    · exact hm
+    · rw [if_neg hm] at h
+      split at h <;> cases h
+  · intro hm
+    rw [if_pos hm]
+
+example : resolveC tables labels {} (.str .CNOT) [.gate ⟨.X, [0], [], {}⟩ .none none, .meas] = .error .measurement := by
+  decide
+
+/-- **Spelling of the basis.**  With `fixes/C03-3` a valid two-qubit gate given as a string is the
+one-element list; any other string is refused (`invalid2q`), whatever the circuit. -/
+theorem basis_string_is_list (v : FVariant) (hx : v.exactStr = true) (y : GName) (fs : List FGate) :
+    (basis2qValid.contains y = true →
+      resolveF tables labels v (.str y) fs = resolveF tables labels v (.list [y]) fs) ∧
+    (basis2qValid.contains y = false → resolveF tables labels v (.str y) fs = .error .invalid2q) := by
+  constructor
+  · intro hy
+    unfold resolveF
+    rw [hx, normBasis_valid y hy, normBasis_list]
+  · intro hy
+    unfold resolveF
+    rw [normBasis_invalid _ y hy, splitBasis_invalid y hy]
+
+example : validBasis (.str .SQRTISWAP) = true ∧ basis2qValid.contains .TOFFOLI = false := by decide
+
+/-- **The list form of the basis is a set**: reordering the list does not change the result (so
+`["RX", "RY", "CNOT"]`, the native set of the superconducting processor, is `["CNOT", "RX", "RY"]`). -/
+theorem resolve_basis_perm (keep : Bool) (bs bs' : List GName) (h : bs.Perm bs') (gs : List Gate) :
+    resolve tables keep (.list bs) gs = resolve tables keep (.list bs') gs :=
+  resolve_perm tables keep bs bs' h gs
+
+example : [GName.RX, .RY, .CNOT].Perm [.CNOT, .RX, .RY] := by decide
+
+/-- **Labels.**  If every label of the form `kπ/m` in the input circuit says what the angle is, and no PHASEGATE
+of the input is labelled that way (the phase marker `_gate_PHASEGATE` emits carries the label of the gate at
+half its angle), then every label `kπ/m` of the resolved circuit says what the angle is — in particular every
+label the rules write (`\pi/2`, `-3\pi/4`, …) is the angle of its gate.  `labGood f = labTrue f ∧ (PHASEGATE → no
+kπ/m label)`. -/
+theorem resolve_labels_true (v : FVariant) (b : BasisSpec) (fs out : List FGate)
+    (hg : ∀ f ∈ fs, labGood f = true) (h : resolveF tables labels v b fs = .ok out) :
+    ∀ o ∈ out, labTrue o = true := by
+  intro o ho
+  have := resolveF_labels_true v b fs out hg h o ho
+  simp only [labGood, Bool.and_eq_true] at this
+  exact this.1
+
+example : (∀ f ∈ ([⟨⟨.RX, [0], [], .pi8 2⟩, .frac 1 4, none, some 0⟩, ⟨⟨.PHASEGATE, [1], [], .pi8 4⟩, .user 3, none, some 1⟩,
+    ⟨⟨.TOFFOLI, [2], [0, 1], {}⟩, .none, none, some 2⟩] : List FGate), labGood f = true) ∧
+    labGood ⟨⟨.RX, [0], [], .pi8 2⟩, .frac 1 2, none, some 0⟩ = false := by decide
+
 /-! ## The Pauli-marker defect of the original code -/
 
 /-- With the original assignment (`keepMarkers = false`) `[X 0]` resolved in basis "CNOT" is
@@ -237,5 +440,32 @@ theorem phasegate_odd_counterexample (ρ : ℕ → ℝ) :
     G.rz_, G.phasegate_] at e
   simp [phase] at e
   exact exp_sixteenth_ne_one (by simpa using e)
+
+/-! ## Arbitrary real angles
+
+`phOK` is a limit of how the model writes FIXED angles (multiples of π/8, halved by integer division), not of the
+circuits: a circuit whose i-th gate has the real angle θᵢ is encoded with the symbolic angle `symb i` and the
+valuation `i ↦ θᵢ` (`encR`, `valR`: `encR_get`, `encR_angle` say that this IS the circuit), and the parametric
+PHASEGATE rule is proved for every θ.  What remains is `RGate.buildable`: RX RY RZ X Y Z have no `controls` — the
+constructor of these gate classes refuses anything else (compared with the code on every run). -/
+
+/-- **C03, unitary part, at full strength**: for every register size, every basis specification and every
+circuit of well placed library gates with ARBITRARY REAL angles that the gate classes can build, whatever the
+model of the repaired `resolve_gates` returns denotes exactly the same unitary, global phase included. -/
+theorem resolve_den (N : ℕ) (b : BasisSpec) (rs : List RGate) (out : List Gate)
+    (hw : ∀ r ∈ rs, r.buildable = true)
+    (h : resolve tables true b (encR 0 rs) = .ok out)
+    (U : Matrix (St N) (St N) ℂ) (hU : denG N (valR rs) (encR 0 rs) = some U) : denG N (valR rs) out = some U :=
+  resolve_den_core N (valR rs) b (encR 0 rs) out (encR_inputOK 0 rs hw) h U hU
+
+/-- non-vacuity: PHASEGATE(1/3) and RX(√2) — angles no fixed multiple of π/8 writes — in a basis where every stage
+runs; and the encoded circuit has these angles -/
+example :
+    let rs : List RGate := [⟨.PHASEGATE, [0], [], 1 / 3⟩, ⟨.CNOT, [1], [0], 0⟩, ⟨.RX, [1], [], Real.sqrt 2⟩]
+    (∀ r ∈ rs, r.buildable = true) ∧
+    (resolve tables true (.list [.SQRTISWAP, .RY, .RZ]) (encR 0 rs)).toOption.isSome = true ∧
+    (Ang.symb (0 + 2)).eval (valR rs) = Real.sqrt 2 := by
+  refine ⟨by decide, by decide, ?_⟩
+  exact encR_angle _ 2 (by decide)
 
 end QipVerif.C03
